@@ -193,9 +193,11 @@ def state_diff(x, y):
 #      aimed at whoever acts next, and of the next block's own transactions)          -> C01
 #   Br the same blocks with process restarts (always right after a block in which a staking transaction failed) -> C03
 STREAM_PLAN = {
-    "quick": [("super", 2, 70), ("superstore", 2, 70), ("poor", 1, 40), ("pay", 1, 40)],
-    "thorough": [("super", 10, 110), ("superstore", 8, 110), ("pay", 3, 80), ("life", 3, 80), ("poor", 3, 80), ("sidauth", 3, 80), ("fault", 2, 80), ("did", 2, 80)],
+    "quick": [("super", 2, 70), ("superstore", 2, 70), ("valset", 1, 70), ("poor", 1, 40), ("pay", 1, 40)],
+    "thorough": [("super", 10, 110), ("superstore", 8, 110), ("valset", 6, 110), ("pay", 3, 80), ("life", 3, 80), ("poor", 3, 80), ("sidauth", 3, 80), ("fault", 2, 80), ("did", 2, 80)],
 }
+# profiles whose driver world differs from the default one (cmd/saoharness cfgFor): the replicas are created with the same
+STREAM_CFG = {"valset": {"validators": 3, "maxValidators": 2}}
 STAKING_KINDS = ("Delegate", "Undelegate", "Redelegate", "Reset", "AddVstorage", "RemoveVstorage", "Create")
 
 
@@ -376,9 +378,9 @@ def random_streams(binary, workdir, tier, seed):
     shutil.rmtree(tdir, ignore_errors=True)
     os.makedirs(tdir)
     try:
-        CFG = {}   # the drivers' default world
         k = 0
         for (profile, n, nev) in STREAM_PLAN[tier]:
+            CFG = STREAM_CFG.get(profile, {})   # {}: the drivers' default world
             rc, o, _ = run([binary, "drive", "--abci", "--profile", profile, "--seed", str(seed * 100 + 50), "--traces", str(n), "--n", str(nev), "--out", tdir], timeout=1200)
             if rc not in (0, 3):
                 raise MachineryError("stream driver failed rc=%d: %s" % (rc, o[-1000:]))
